@@ -3,6 +3,7 @@ package harness
 import (
 	"fmt"
 	"strings"
+	"time"
 
 	"kmipverif/simnet"
 	"kmipverif/simrt"
@@ -242,8 +243,10 @@ func init() {
 	register(&Prop{
 		ID: "C11", Engine: "client",
 		Generate: genC11, Decode: decodeClientSc, Execute: execC11,
-		Config: func(any) simrt.Config { return simrt.Config{MaxSteps: 100000} },
-		Runs:   clientRuns(50000, 5000000),
+		Config: func(any) simrt.Config {
+			return simrt.Config{MaxSteps: 100000, IdleProbe: 5 * time.Second, ClockJumpPM: 10}
+		},
+		Runs: clientRuns(50000, 5000000),
 		Floors: []Floor{
 			{Name: "single-fault", Count: func(t string) int { return len(c11Floor(t)) }, Scenario: func(t string, i int) any { return c11Floor(t)[i] }},
 			{Name: "single-preemption", Sweep: true, Count: func(t string) int { return len(c11SweepFloor(t)) }, Scenario: func(t string, i int) any { return c11SweepFloor(t)[i] }},
